@@ -10,6 +10,7 @@ import (
 	"strings"
 
 	"github.com/Vedant9500/WTF/internal/database"
+	"github.com/Vedant9500/WTF/internal/recovery"
 	"github.com/Vedant9500/WTF/internal/zzverif/vlib"
 )
 
@@ -20,7 +21,25 @@ func init() {
 
 type c02Job struct {
 	DBPath string `json:"db"`
+	Kind   string `json:"kind"` // file | literal | fallback
 	Cases  []c02Q `json:"cases"`
+}
+
+// c02Open obtains the database the way the job says: through the loader, as a struct literal holding the loaded
+// entries (no re-ranker, index built lazily), or as the built-in fallback of a failed load.
+func c02Open(path, kind string) (*database.Database, error) {
+	switch kind {
+	case "fallback":
+		return recovery.NewDatabaseRecovery(recovery.RetryConfig{MaxAttempts: 1}).LoadDatabaseWithFallback(path+".does-not-exist", path+".no-notebook")
+	case "literal":
+		l, err := database.LoadDatabase(path)
+		if err != nil {
+			return nil, err
+		}
+		return &database.Database{Commands: l.Commands}, nil
+	default:
+		return database.LoadDatabase(path)
+	}
 }
 
 type c02Q struct {
@@ -47,7 +66,7 @@ func helperDetSearch(args []string) int {
 		fmt.Fprintln(os.Stderr, err)
 		return 2
 	}
-	db, err := database.LoadDatabase(job.DBPath)
+	db, err := c02Open(job.DBPath, job.Kind)
 	if err != nil {
 		fmt.Fprintln(os.Stderr, err)
 		return 2
@@ -89,31 +108,46 @@ func engineDeterminism(ctx *Ctx) {
 				panic(err)
 			}
 		}
+		kind := "file"
+		if dbName != "shipped" {
+			kind = []string{"file", "file", "file", "literal", "fallback"}[d%5]
+		}
+		dbName += "/" + kind
 		var db *database.Database
-		if !ctx.R.Guard("C02", "LoadDatabase", dbName, func() {
+		if !ctx.R.Guard("C02", "open database ("+kind+")", dbName, func() {
 			var err error
-			db, err = database.LoadDatabase(dbp)
+			db, err = c02Open(dbp, kind)
 			if err != nil {
 				panic(err)
 			}
 		}) {
 			continue
 		}
+		ctx.R.Path("db-kind-"+kind, 1)
 		N := len(db.Commands)
 		words := vlib.DBWords(db.Commands)
 		if len(words) > 2000 {
 			words = words[:2000]
 		}
-		job := c02Job{DBPath: dbp}
+		job := c02Job{DBPath: dbp, Kind: kind}
 		for qi := 0; qi < nQ; qi++ {
 			q := vlib.GenQuery(r, words, 1+r.Intn(4), []int{0, 0, 1, 2}[r.Intn(4)])
-			if dbName == "shipped" && qi == 0 {
+			if strings.HasPrefix(dbName, "shipped") && qi == 0 {
 				q = "disk usage"
+			}
+			if qi%4 == 3 && N > 0 { // long query sharing many terms with one (short) entry: the re-ranker's dot products have many addends
+				c := db.Commands[r.Intn(N)]
+				toks := vlib.Tokenize(c.Command + " " + c.Description + " " + strings.Join(c.Keywords, " "))
+				q = strings.Join(toks, " ") + " " + vlib.GenQuery(r, words, 3+r.Intn(8), 0)
+				ctx.R.Path("long-queries", 1)
 			}
 			o := vlib.RandomOptions(r, N, words)
 			o.AllPlatforms = r.Intn(3) > 0
 			if r.Intn(3) > 0 {
 				o.Limit = []int{1, 2, 3, 5}[r.Intn(4)]
+			}
+			if qi%4 == 3 {
+				o.UseNLP = true
 			}
 			sq := q
 			if len(words) > 0 {
@@ -127,7 +161,7 @@ func engineDeterminism(ctx *Ctx) {
 		// fresh loads of the same file
 		fresh := []*database.Database{}
 		for i := 0; i < loads; i++ {
-			f, err := database.LoadDatabase(dbp)
+			f, err := c02Open(dbp, kind)
 			if err == nil {
 				fresh = append(fresh, f)
 			}
@@ -271,7 +305,7 @@ func engineDeterminism(ctx *Ctx) {
 			}
 			os.RemoveAll(h.Dir)
 		}
-		if dbName != "shipped" {
+		if !strings.HasPrefix(dbName, "shipped") {
 			os.Remove(dbp)
 		}
 		os.Remove(jobp)
